@@ -25,6 +25,7 @@ func init() {
 		ruleS4(c, "C05.F11")
 		ruleColdRead(c, "C05.F12")
 		ruleZ10(c, "C05.F13")
+		ruleF14(c, "C05.F14")
 		ruleW1(c, "C05.F7")
 		ruleR3(c, "C05.R3")
 		ruleR6(c, "C05.R6")
@@ -558,4 +559,32 @@ func resizeConsumed(c *Ctx, start *ssa.Function, fn *ssa.Function, v ssa.Value, 
 		}
 	}
 	return true
+}
+
+// ruleF14: Shrink walks the file's logical blocks downwards one at a time:
+// ShrinkSize is the number of blocks still to look at, each round lowers it by
+// one and frees that block.  A store that moves ShrinkSize any other way skips
+// blocks, which are then never freed.
+func ruleF14(c *Ctx, id string) {
+	V, P, R := c.V, c.P, c.R
+	R.Rule(id, "Shrink visits every block: every store to ShrinkSize in Inode.Shrink (and its helpers) lowers it by exactly one", 1)
+	if V.Shrink == nil {
+		return
+	}
+	n := 0
+	for _, sc := range scopesOf(V.Shrink) {
+		for _, w := range FieldWrites(sc.Fn) {
+			if w.Type != V.Inode || w.Field != "ShrinkSize" {
+				continue
+			}
+			n++
+			form := sym(&symCtx{recv: V.Shrink.Params[0]}, w.Val, sc.S, 0)
+			ok := form == "(- field(recv.ShrinkSize) 1)" || form == "(+ -1 field(recv.ShrinkSize))" || form == "(+ 18446744073709551615 field(recv.ShrinkSize))"
+			R.Analysed[FuncName(sc.Fn)] = true
+			R.Check(ok, id, fmt.Sprintf("inode.Shrink|ShrinkSize lowered by one#%d", n), P.Pos(w.Instr.Pos()), "the store is ShrinkSize = ShrinkSize - 1", form, "ShrinkSize is set to "+form+": the blocks between the old and the new value are skipped by the shrink loop and never freed")
+		}
+	}
+	if n == 0 {
+		R.Fail(id, "inode.Shrink|ShrinkSize", P.Pos(V.Shrink.Pos()), "Shrink lowers ShrinkSize", "no store to ShrinkSize found")
+	}
 }
